@@ -8,7 +8,7 @@ EXTENDS Ir, TLC, TLCExt, Json, IOUtils
 VARIABLE l
 Tr == ndJsonDeserialize(IOEnv.TRACE_FILE)
 
-FlagOrder == <<"empty", "root", "scope">>
+FlagOrder == <<"empty", "root", "scope", "dir_ltr", "dir_rtl">>
 ProjFlags(fs) == SelectSeq(FlagOrder, LAMBDA f : f \in fs)
 ProjPrefix(ns, isAttr) == IF isAttr /\ ns.t = "none" THEN [t |-> "bare"] ELSE ns       \* [|a] and [a] are the same IR
 Bits(pool, P(_)) == LET RECURSIVE B(_)
@@ -32,7 +32,8 @@ ProjSel(pool, s) ==
           nth |-> [n \in 1..Len(s.nth) |-> [a |-> s.nth[n].a, n |-> s.nth[n].n, b |-> s.nth[n].b, of_type |-> s.nth[n].of_type,
                                             last |-> s.nth[n].last, selectors |-> ProjList(pool, s.nth[n].selectors)]],
           selectors |-> [n \in 1..Len(s.selectors) |-> ProjList(pool, s.selectors[n])],
-          relation |-> ProjList(pool, s.relation), rel_type |-> s.rel_type, flags |-> ProjFlags(s.flags)]
+          relation |-> ProjList(pool, s.relation), rel_type |-> s.rel_type, flags |-> ProjFlags(s.flags),
+          lang |-> s.lang, contains |-> s.contains]
 ProjList(pool, lst) ==
     [selectors |-> [n \in 1..Len(lst.selectors) |-> ProjSel(pool, lst.selectors[n])], is_not |-> lst.is_not, is_html |-> lst.is_html]
 
